@@ -1,0 +1,22 @@
+//! Canonical dump of the execution graph a host derives.
+use super::observe::C3;
+
+#[derive(Clone, Debug, PartialEq, Eq)]
+pub struct BlockDump {
+    pub id: u64,
+    /// (coord, global id), sorted by coord
+    pub replicas: Vec<(C3, u64)>,
+    pub only_one: bool,
+}
+
+#[derive(Clone, Debug, PartialEq, Eq)]
+pub struct GraphDump {
+    pub host: Option<u64>,
+    pub blocks: Vec<BlockDump>,
+    /// job graph edges (from block, to block, fragile)
+    pub job_edges: Vec<(u64, u64, bool)>,
+    /// execution graph links (from, to, fragile), sorted
+    pub links: Vec<(C3, C3, bool)>,
+    /// ((block, host, prev block), address, port), sorted
+    pub addresses: Vec<((u64, u64, u64), String, u16)>,
+}
